@@ -228,7 +228,8 @@ def main(argv=None):
     ck = Check("C02", argv)
     common.setup_impl_env()
     ck.run_witnesses(["w05", "w06", "w09"])
-    ck.prove(extra_targets=tieb_stores.STORES[0], gen_kernels=tieb_stores.STORES[1])   # ties A + B
+    # the histories also run through Datastore / Bucket: theorems of that layer (Props/C02ds.v) and its tie B
+    ck.prove(extra_targets=["Props/C02ds.v"] + tieb_stores.STORES_DS[0], gen_kernels=tieb_stores.STORES_DS[1])   # ties A + B
     have_driver = ck.driver("ExC02ds")     # ExC02 + the Datastore / Bucket layer (case tag 30)
 
     # every history is a 4-tuple (symbolic ops, universe, None, layer): the deterministic corpora run on BOTH
